@@ -318,23 +318,45 @@ func a12EmitState(h *H, d *a12Dec, in *a12Intern, st BeState, prefix string) {
 	}
 }
 
-// a12DecodePacks feeds every pack of a state / of a list of events to the decoder (tree blobs
-// become known for closures).
-func a12DecodePacks(d *a12Dec, evs []Event) {
+// a12DecodePacks feeds every pack saved by a list of events to the decoder (tree blobs become
+// known for closures).
+func a12DecodePacks(d *a12Dec, evs []Event, after BeState) {
 	for _, e := range evs {
-		if e.Op == "save" && !e.Err && e.Type == "data" && e.Data != nil {
+		if e.Op == "save" && e.Type == "data" && a12Happened(e, after) {
 			d.Pack(e.Name, e.Data)
 		}
 	}
 }
 
-// a12EmitEvents writes the mutating events on pack / index / snapshot files that succeeded.
+// a12Happened decides whether a recorded operation took effect. An operation that returned an
+// error normally did not — except that a backend may store the file and still report an error
+// (mem.Save returns ctx.Err() *after* storing when the context was cancelled meanwhile); `after`
+// (the backend content when the run was over) settles it.
+func a12Happened(e Event, after BeState) bool {
+	if !e.Err {
+		return true
+	}
+	if e.Op != "save" || after == nil || len(e.Data) == 0 {
+		return false
+	}
+	b, ok := after[e.Type+"/"+e.Name]
+	return ok && bytes.Equal(b, e.Data)
+}
+
+// a12EmitEvents writes the mutating events on pack / index / snapshot files that took effect.
 // Returns the number of events written.
-func a12EmitEvents(h *H, d *a12Dec, in *a12Intern, proc string, evs []Event) int {
-	a12DecodePacks(d, evs)
+func a12EmitEvents(h *H, d *a12Dec, in *a12Intern, proc string, evs []Event, after BeState) int {
 	n := 0
 	for _, e := range evs {
-		if e.Err {
+		if !a12Happened(e, after) {
+			continue
+		}
+		if e.Op == "save" && e.Type == "data" {
+			d.Pack(e.Name, e.Data)
+		}
+	}
+	for _, e := range evs {
+		if !a12Happened(e, after) {
 			continue
 		}
 		switch {
